@@ -184,6 +184,7 @@ class SchemaCfg:
     enum_max_bits: int = 31
     max_fid: int = 40
     shuffle_ids: bool = True
+    dup_ids: bool = False  # occasionally two fields of a struct share an id (stable order expected everywhere)
     type_names: Optional[st.SearchStrategy] = None
     field_names: Optional[st.SearchStrategy] = None
     enum_item_names: Optional[st.SearchStrategy] = None
@@ -192,13 +193,17 @@ class SchemaCfg:
 
 
 @st.composite
-def field_ids(draw, n: int, max_fid: int, shuffle: bool) -> List[int]:
+def field_ids(draw, n: int, max_fid: int, shuffle: bool, dup: bool = False) -> List[int]:
     if not shuffle or n == 1:
         if draw(st.booleans()):
             return list(range(n))
     ids = draw(st.lists(st.integers(0, max(max_fid, n)), min_size=n, max_size=n, unique=True))
     if not shuffle:
         ids = sorted(ids)
+    if dup and n >= 2 and draw(st.integers(0, 7)) == 0:
+        # a copy/paste slip: two fields carry the same id (nothing rejects it; ties keep declaration order)
+        i, j = draw(st.lists(st.integers(0, n - 1), min_size=2, max_size=2, unique=True))
+        ids[j] = ids[i]
     return ids
 
 
@@ -219,7 +224,7 @@ range_bound = st.one_of(
 def struct_decl(draw, name: str, cfg: SchemaCfg, enums: Sequence[str], structs: Sequence[str]) -> M.Struct:
     n = draw(st.integers(cfg.min_fields, cfg.max_fields))
     fnames = draw(unique_names((cfg.field_names if cfg.field_names is not None else lower_ident), n, n))
-    ids = draw(field_ids(n, cfg.max_fid, cfg.shuffle_ids))
+    ids = draw(field_ids(n, cfg.max_fid, cfg.shuffle_ids, cfg.dup_ids))
     tstrat = types(cfg.types, enums, structs)
     fields = []
     for fname, fid in zip(fnames, ids):
